@@ -82,6 +82,7 @@ Inductive obs :=
 | OErr (e : err)
 | OFrame (c : side) (i : V) (rows : ser)
 | OSer (rows : ser)
+| ORows (rows : ser)        (* rolling_mean's sample points: computed labels, compared tolerantly in tolerant cases *)
 | OVals (l : list V)
 | OVal (v : V)
 | OBool (b : bool)
@@ -128,6 +129,12 @@ Definition vir_closed (f : stairsQ) (cl : option ivclosed) : side * bool * bool 
 
 Definition lims_of (f : stairsQ) (cl : option ivclosed) : bool * bool :=
   let '(_, l, r) := vir_closed f cl in get_lims (closed f) l r.
+
+Fixpoint strictly_increasing (l : list Qc) : bool :=
+  match l with
+  | a :: ((b :: _) as t) => Qcltb a b && strictly_increasing t
+  | _ => true
+  end.
 
 Definition members_of (w : world) (rs : list nat) : option (list stairsQ) :=
   match sequence (map (wget w) rs) with Some os => Some (map st os) | None => None end.
@@ -191,7 +198,7 @@ Definition exec_query (w : world) (r : nat) (o : obj) (q : query) : world * obs 
       | None => (w, OErr EOther)
       end
   | QRolling l r lo hi =>
-      (wv, match rolling_mean f l r lo hi with Ok rows => OSer rows | Err e => OErr e end)
+      (wv, match rolling_mean f l r lo hi with Ok rows => ORows rows | Err e => OErr e end)
   | QDescribe lo hi ps =>
       (wv, match describe f lo hi ps with Ok l => OVals l | Err e => OErr e end)
   | QArrSample others xs =>
@@ -232,7 +239,8 @@ Definition exec_query (w : world) (r : nat) (o : obj) (q : query) : world * obs 
 Definition exec (w : world) (s : stmt) : world * obs :=
   match s with
   | SNew r i c => bind_result w r (Ok (const i c))
-  | SFromValues r i rows c => bind_result w r (Ok (from_values i rows c))
+  | SFromValues r i rows c =>      (* the index must be strictly increasing (repaired: repeated labels were accepted) *)
+      bind_result w r (if strictly_increasing (map fst rows) then Ok (from_values i rows c) else Err EValue)
   | SLayer r a =>
       match wget w r with
       | None => (w, OErr EOther)
